@@ -4,7 +4,9 @@ import (
 	"fmt"
 	"math/rand"
 	"os"
+	"runtime"
 	"strings"
+	"sync"
 	"time"
 
 	"github.com/taskctl/taskctl/pkg/runner"
@@ -356,4 +358,61 @@ func runC13(col *Collector, tier string, seed int64) {
 		add(timedSpec{T: Ts[rng.Intn(len(Ts))], before: mk(rng.Intn(2)), cmds: mk(1 + rng.Intn(4)), after: mk(rng.Intn(3)), allow: rng.Intn(2) == 0}, "random")
 	}
 	parallel(len(specs), 16, func(i int) { timedCase(col, specs[i], tags[i]) })
+	// many more timed tasks at once than there are CPUs, on one runner and on several: each command has its whole
+	// timeout to itself - how many other commands are running does not eat into it
+	for _, oneRunner := range []bool{true, false} {
+		oneRunner := oneRunner
+		timedCases(col, func(col *Collector) { wideTimedCase(col, 2*runtime.GOMAXPROCS(0)+3, oneRunner) })
+	}
+}
+
+func wideTimedCase(col *Collector, n int, oneRunner bool) {
+	const T, D = 2000, 1200
+	trace := newTracePath()
+	defer os.Remove(trace)
+	cs := Case{Replay: fmt.Sprintf("%d tasks started together (one runner for all: %v), each with timeout %dms and the single command `sleep %.1f`", n, oneRunner, T, float64(D)/1000), Tags: []string{"wide"}, NonTrivial: true}
+	shared, err := runner.NewTaskRunner()
+	if err != nil {
+		cs.Fail, cs.Sig = err.Error(), "c13-crash"
+		col.Add(cs)
+		return
+	}
+	shared.Stdout, shared.Stderr = devNull{}, devNull{}
+	errs := make([]error, n)
+	var wg sync.WaitGroup
+	t0 := time.Now()
+	for i := 0; i < n; i++ {
+		t := task.FromCommands(fmt.Sprintf("sleep %.1f; echo done%d >> %s", float64(D)/1000, i, trace))
+		t.Name = fmt.Sprintf("t%d", i)
+		d := T * time.Millisecond
+		t.Timeout = &d
+		r := shared
+		if !oneRunner {
+			r, _ = runner.NewTaskRunner()
+			r.Stdout, r.Stderr = devNull{}, devNull{}
+		}
+		wg.Add(1)
+		go func(i int, r *runner.TaskRunner, t *task.Task) {
+			defer wg.Done()
+			errs[i] = r.Run(t)
+		}(i, r, t)
+	}
+	wg.Wait()
+	el := time.Since(t0)
+	failed := 0
+	var first error
+	for _, e := range errs {
+		if e != nil {
+			failed++
+			if first == nil {
+				first = e
+			}
+		}
+	}
+	ran := strings.Count(strings.Join(readTrace(trace), ","), "done") // concurrent appends may glue two lines together
+	cs.Impl = fmt.Sprintf("failed=%d completed=%d", failed, ran)
+	if failed > 0 || ran != n {
+		cs.Fail, cs.Sig = fmt.Sprintf("%d of %d tasks failed (%v) and %d commands completed after %v: a command that needs %dms of its %dms is within its timeout whatever else is running", failed, n, first, ran, el.Round(time.Millisecond), D, T), "c13-trace"
+	}
+	col.Add(cs)
 }
